@@ -55,7 +55,7 @@ def r03_1(ctx):
 def r03_2(ctx):
     rep, model = ctx.rep, ctx.model
     rep.rule("R03.2", "multi-piece aggregation of W, U (through H) and A equals the Chen composition of the pieces")
-    for n in (1, 2, 3):
+    for n in ((1, 2, 3) if ctx.tier == "quick" else (1, 2, 3, 4, 5)):
         for have_H, have_A in ((True, True), (True, False), (False, False)):
             r = bk.eval_call(model, n, have_H, have_A, return_U=have_H, return_A=have_A)
             fi = r["fi"]
@@ -285,7 +285,9 @@ def r03_8(ctx):
                       "unchanged; a straddling query is cut at the midpoint, left part first; a leaf is split at the "
                       "interior query end point; anything outside goes to the parent unchanged")
     n = 0
-    for mid_, points in ((4, (-1, 0, 2, 4, 6, 8, 9)), (None, (-1, 0, 3, 5, 8, 9))):
+    pts_split, pts_leaf = ((-1, 0, 2, 4, 6, 8, 9), (-1, 0, 3, 5, 8, 9)) if ctx.tier == "quick" else \
+        ((-2, -1, 0, 1, 2, 3, 4, 5, 6, 7, 8, 9, 10), (-2, -1, 0, 1, 3, 5, 7, 8, 9, 10))
+    for mid_, points in ((4, pts_split), (None, pts_leaf)):
         for i, ta in enumerate(points):
             for tb in points[i + 1:]:
                 n += 1
